@@ -319,6 +319,119 @@ def iac_offsets():
     return res
 
 
+def stream_worker(spec):
+    """quick-tier twin of the loopback rig: BOTH real Telnet transports on fakes at the socket / StreamReader boundary, the scripted
+    Telnet session (negotiation commands interleaved with login dialogue, echo and output) lost after n bytes — chunks are cut
+    exactly there, so a drop strictly inside a command leaves IAC / IAC + verb pending.  One line per case; the parent kills us when
+    a case does not finish (an asyncio loop that spins without yielding cannot be interrupted from inside)."""
+    import asyncio, types
+    sys.path.insert(0, spec["repo"])
+    sys.path.insert(0, str(HERE.parents[1]))
+    os.environ["SCRAPLI_VERIF"] = "1"
+    from harness import libfakes as L
+    from scrapli.exceptions import ScrapliException
+    import scrapli.channel.async_channel as AC
+    proxy = types.SimpleNamespace(**{k: getattr(asyncio, k) for k in dir(asyncio) if not k.startswith("__")})
+
+    async def _sleep(d, *a, **k):
+        await asyncio.sleep(0)
+    proxy.sleep = _sleep
+    AC.asyncio = proxy       # the asyncio login loop sleeps 0.1 s per iteration: timing only
+    for idx, (t, o, n) in spec["cases"]:
+        print(json.dumps({"start": idx}), flush=True)
+        link = L.Link(t, device=TelnetDev(), after="same")
+        link.byte_fault = (n, o)
+        ops = []
+        with L.patched(link):
+            conn = L.make_real_conn(t, link, timeout_ops=spec.get("timeout_ops", 2.0), wire=False, auth_bypass=False, auth_username="u", auth_password="pw",
+                                    comms_prompt_pattern=PATTERN)
+            if t in L.ASYNC:
+                L.ReadGuard(conn)
+            failed = False
+
+            def one(name, fn):
+                t0 = time.time()
+                r = L.run_op(conn, fn)
+                if r[0] == "ok":
+                    rec = {"op": name, "ok": True, "value": repr(r[1])[:60]}
+                else:
+                    e = r[1]
+                    rec = {"op": name, "ok": False, "exc": type(e).__name__, "scrapli": isinstance(e, ScrapliException), "msg": str(e)[:100]}
+                rec["s"] = round(time.time() - t0, 3)
+                ops.append(rec)
+                return rec
+            for name, fn in (("open", "open"), ("get_prompt", "get_prompt"), ("send_command", "send_command"),
+                             ("send_command2", lambda: conn.send_command("show clock"))):
+                if not one(name, fn)["ok"]:
+                    failed = True
+                    break
+            one("isalive", "isalive")
+            one("further", "get_prompt")
+            one("close", "close")
+            L.dispose(t, conn.transport)
+        print(json.dumps({"idx": idx, "ops": ops, "failed": failed, "complete": True, "pend": link.pend}), flush=True)
+
+
+def run_stream_cases(repo, cases, per_case_limit=20.0, timeout_ops=2.0):
+    """cases = [(transport, outcome, offset)] -> list of {"killed", "res"} in the same order"""
+    import queue
+    results = [None] * len(cases)
+    todo = list(enumerate(cases))
+    restarts = 0
+    while todo:
+        spec = {"rig": "telnetfake", "repo": repo, "cases": [[i, list(c)] for i, c in todo], "timeout_ops": timeout_ops}
+        p = subprocess.Popen([sys.executable, str(HERE), json.dumps(spec)], stdout=subprocess.PIPE, stderr=subprocess.PIPE, text=True, start_new_session=True)
+        q = queue.Queue()
+
+        def pump(p=p, q=q):
+            for line in p.stdout:
+                q.put(line)
+            q.put(None)
+        threading.Thread(target=pump, daemon=True).start()
+        current, hung = None, False
+        first = True
+        while True:
+            try:
+                line = q.get(timeout=per_case_limit + (20 if first else 0))      # the first answer includes the interpreter start-up
+            except queue.Empty:
+                hung = True
+                break
+            first = False
+            if line is None:
+                break
+            if not line.startswith("{"):
+                continue
+            d = json.loads(line)
+            if "start" in d:
+                current = d["start"]
+            elif "idx" in d:
+                results[d["idx"]] = {"killed": False, "res": d}
+                current = None
+        if hung:
+            os.killpg(p.pid, signal.SIGKILL)
+        err = ""
+        try:
+            _, err = p.communicate(timeout=10)
+        except Exception:
+            pass
+        done = {i for i, r in enumerate(results) if r is not None}
+        if hung and current is not None:
+            results[current] = {"killed": True, "res": {"ops": [{"op": "?", "ok": True}], "failed": True}}
+            done.add(current)
+        elif not hung and p.returncode not in (0, None) and current is not None:
+            results[current] = {"killed": False, "res": None, "err": err[-800:]}
+            done.add(current)
+        elif hung and current is None:
+            raise RuntimeError("stream worker did not start: " + err[-500:])
+        todo = [(i, c) for i, c in todo if i not in done]
+        restarts += 1
+        if restarts > 12 and todo:
+            for i, _ in todo:
+                results[i] = {"killed": False, "res": None, "err": "not run: too many worker restarts"}
+            break
+    return results
+
+
 # ------------------------------------------------------------------------------------------------ parent side
 def _bindir():
     d = Path("/tmp/c08-rig-bin")
@@ -439,4 +552,8 @@ def replay(v):
 
 
 if __name__ == "__main__":
-    worker(json.loads(sys.argv[1]))
+    _spec = json.loads(sys.argv[1])
+    if _spec.get("rig") == "telnetfake":
+        stream_worker(_spec)
+    else:
+        worker(_spec)
